@@ -223,14 +223,37 @@ def byte_level(base, rng, nflips):
         out.append(("truncate@%d" % cut, wal[:cut], must, mustnot))
     allbits = [(o, b) for o in range(n) for b in range(8)]
     if nflips and nflips < len(allbits):
-        allbits = rng.sample(allbits, nflips)
+        # always: every bit of the bytes that steer the scanner (message ids, destination and status of transaction-info
+        # records, lowest and highest byte of every length field); the rest sampled
+        steer = set()
+        for c in cells:
+            if c["k"] in ("MID", "ST"):
+                steer.add(c["off"])
+            elif c["k"] == "TI":
+                steer |= {c["off"], c["off"] + 9, c["off"] + 10}
+            elif c["k"] == "LEN":
+                steer |= {c["off"], c["off"] + c["len"] - 1}
+        must_bits = [(o, b) for o in sorted(steer) if o < n for b in range(8)]
+        rest = [x for x in allbits if x[0] not in steer]
+        allbits = must_bits + rng.sample(rest, min(len(rest), nflips))
     for o, b in allbits:
         c = cell_at(o)
         bb = bytearray(wal)
         bb[o] ^= 1 << b
         mustnot, must = set(), set()
         hit = c["tg"] if c else 0
+        # a flip inside a transaction-info record (PREPARING before a group, COMMITCOMPLETE after it) damages the record of
+        # THAT group's commit: the group may or may not be applied, nothing is demanded of it
+        excused = set()
+        if c is not None and c["k"] == "TI":
+            ci = cells.index(c)
+            if ci > 0 and cells[ci - 1]["k"] == "CK":
+                excused.add(cells[ci - 1]["tg"])
+            if ci + 1 < len(cells) and cells[ci + 1]["k"] == "MID":
+                excused.add(cells[ci + 1]["tg"])
         for t in range(1, ntg_complete + 1):
+            if t in excused:
+                continue
             if t == hit:
                 mustnot.add(t)
             else:
@@ -239,7 +262,10 @@ def byte_level(base, rng, nflips):
                     must.add(t)
         if base.partial:
             mustnot.add(ntg_complete + 1)
-        out.append(("flip@%d.%d" % (o, b), bytes(bb), must, mustnot))
+        tag = ""
+        if c is not None and c["k"] == "TI" and o == c["off"] + 9 and b == 0 and (wal[o] ^ (1 << b)) == 1 and wal[c["off"] + 10] == 2:
+            tag = "!commit-becomes-checkpoint"     # destination WAL (0) -> CHECKPOINT (1) of a COMMITCOMPLETE record
+        out.append(("flip@%d.%d%s" % (o, b, tag), bytes(bb), must, mustnot))
     return out
 
 
@@ -329,6 +355,9 @@ def run(prop, tier):
                 moved = [p for p in o[-1]["files"] if p.endswith(".tmp")]
                 if label.startswith("dup:") and moved and "DupAbortsReplay" in known:
                     res.known_finding(known["DupAbortsReplay"], {"where": where, "missing": missing, "moved_aside": moved})
+                    continue
+                if label.endswith("!commit-becomes-checkpoint") and "CommitBecomesCheckpoint" in known:
+                    res.known_finding(known["CommitBecomesCheckpoint"], {"where": where, "missing": missing})
                     continue
                 res.violation("%s: intact committed transaction(s) %s preceding the damage were not applied: recovered %s" % (
                     where, missing, W.norm(content)), replay)
